@@ -1227,7 +1227,9 @@ def check_C03(tier, seed):
     pats += rxl.repo_patterns()
     pats += rxl.primary_forms(tier) + BLANK_PATTERNS
     pats += ['a*a', '(ab|ac)*', '(a|ab)c', '(a*b)*', 'a?a', '(ab)+a', 'a*b*a', '(a|b)*abb', '.*b', '[a-z]+[0-9]*', '(a{2}){3}', 'a{10}', '(a|b){4}c',
-             '\\x41\\x7[\\x80-\\xff]'.replace('\\\\', '\\'), '/\\*.*\\*/'.replace('\\\\', '\\'), '"[^"]*"', '[_a-zA-Z][_a-zA-Z0-9]*', '0|[1-9][0-9]*', '1{2}3', '[0-9]+\\.[0-9]+'.replace('\\\\', '\\')]
+             '\\x41\\x7[\\x80-\\xff]'.replace('\\\\', '\\'), '/\\*.*\\*/'.replace('\\\\', '\\'), '"[^"]*"', '[_a-zA-Z][_a-zA-Z0-9]*', '0|[1-9][0-9]*', '1{2}3', '[0-9]+\\.[0-9]+'.replace('\\\\', '\\'),
+             # escaped LETTERS denote themselves, upper and lower case alike (only a lower-case \\x starts a hex escape)
+             '\\X', 'a\\Xb+', '[\\Xa]', '[^\\X]', '\\A\\F', '[\\X41]', '\\y', '10', '20[0-9][0-9]']
     for i in range(200 if tier == 'quick' else 3000):
         pats.append(rxl.random_pattern(rng, depth=rng.choice([2, 3, 4])))
     seen, jobs = set(), []
@@ -1427,6 +1429,10 @@ def grammar_wf_check(tier, work):
     add('undeclared_term_named_like_declared_nterm', ['S', 'item'], ['a'], 'S', [('S', [('t', 'item'), 'a']), ('item', ['a'])], ['S', 'item'], ['a', 'item'])
     add('undeclared_nterm_named_like_declared_term', ['S'], ['a', 'num'], 'S', [('S', [('n', 'num'), 'a']), ('S', [('t', 'num')])], ['S', 'num'], ['a', 'num'])
     add('ok_term_and_nterm_share_a_name', ['S', 'item'], ['a', 'item'], 'S', [('S', [('n', 'item'), ('t', 'item')]), ('item', ['a'])], ['S', 'item'], ['a', 'item'])
+    # a regex term whose PATTERN is the text of an undeclared string / char term: its id is r_<pattern>, not the pattern
+    add('undeclared_string_equals_declared_regex_pattern', ['S'], ['a', 'r:abc'], 'S', [('S', [('t', 'abc'), 'a']), ('S', [('t', 'r:abc')])], ['S'], ['a', 'r:abc', 'abc'])
+    add('undeclared_char_equals_declared_regex_pattern', ['S'], ['a', 'r:x'], 'S', [('S', [('t', 'x'), 'a']), ('S', [('t', 'r:x')])], ['S'], ['a', 'r:x', 'x'])
+    add('ok_regex_and_string_of_one_text', ['S'], ['abc', 'r:abc'], 'S', [('S', [('t', 'abc'), ('t', 'r:abc')])], ['S'], ['abc', 'r:abc'])
     items = []
     jobs = []
     inc = os.path.join(vlib.REPO, 'include')
@@ -1438,7 +1444,10 @@ def grammar_wf_check(tier, work):
         for n, var in ntv.items():
             body.append('nterm<int> %s("%s");' % (var, n))
         for t, var in tv.items():
-            if len(t) == 1:
+            if t.startswith('r:'):
+                decl.append('constexpr char pat_%s[] = "%s";' % (var, t[2:]))
+                body.append('regex_term<pat_%s> %s("rx_%s");' % (var, var, var))
+            elif len(t) == 1:
                 o1 = ord(t)
                 body.append('char_term %s(\'%s\');' % (var, t) if 32 < o1 < 127 and t not in "'\\" else 'char_term %s(char(%d));' % (var, o1 if o1 < 128 else o1 - 256))
             else:
@@ -1466,7 +1475,9 @@ def grammar_wf_check(tier, work):
         for e in ct_errs:
             if 'constant expression' not in e and 'constexpr' not in e:
                 raise Infra('compile-time TU %s failed for an unrelated reason: %s' % (v['id'], e[:600]))
-        items.append({'id': v['id'], 'nterms': v['nterms'], 'terms': v['terms'], 'root': v['root'], 'rules': v['rules'],
+        tid_ = lambda t: 'r_' + t[2:] if t.startswith('r:') else t          # (the id a term is known by in rules)
+        items.append({'id': v['id'], 'nterms': v['nterms'], 'terms': [tid_(t) for t in v['terms']], 'root': v['root'],
+                      'rules': [{'l': r['l'], 'r': [dict(x, s=tid_(x['s'])) if x['k'] == 't' else x for x in r['r']]} for r in v['rules']],
                       'constructed': 'CONSTRUCTED' in r['rt'].stdout, 'threw': r['rt'].stdout.strip()[-80:], 'ct_ok': r['ct'].returncode == 0 and r['ctc'].returncode == 0})
     ip = os.path.join(work, 'wf.items.ndjson')
     vlib.write_ndjson(ip, items)
@@ -2297,6 +2308,9 @@ def check_C12(tier, seed):
     # ---- (c) default LR caps, (d) custom limits around the need
     names = ['expr_strat', 'paren_list', 'closure_memo', 'lr1_not_lalr', 'nullable_prefix', 'else_in_else'] + ([] if tier == 'quick' else ['first_cycle', 'll_pal', 'two_lists', 'expr_amb', 'unit_chain'])
     base = [pipeline.gen_entry(cat[n], gid=n + '@deflim') for n in names]
+    # a grammar whose rules are ALL empty: the widest right side is the library's own root rule (one symbol)
+    base.append(pipeline.gen_entry(cat['empty_only'], gid='empty_only@deflim'))
+    base.append(pipeline.gen_entry(gram.Grammar('empty_two', ['S', 'A'], ['q'], 'S', [('S', [], 0), ('A', [], 0)]), gid='empty_two@deflim'))
     # a grammar with MORE LR(1) states than the default state cap (the cap is the number of situations; the canonical
     # collection of the right-linear grammar of (a|b)* a (a|b)^7 is exponential in the suffix): once with the default limits
     # (K3: they do not suffice - construction must then fail loudly), once with sufficient custom limits (how much is needed)
@@ -2474,7 +2488,7 @@ def check_C13(tier, seed):
             nv = [i for i, x in enumerate(g.nts) if x != g.root] if vi % 2 == 0 else []
             # (variants 0 and 1: the even contextual rules KEEP their result in the caller's object and return a reference to it;
             #  the object the caller reads afterwards must still hold it - 'context-mutations' turns negative otherwise)
-            entries.append(pipeline.gen_entry(g, gid='%s@ctx%d' % (n, vi), ctx=sorted(cs), postprec=pp, noval=nv, ctxref=vi in (0, 1)))
+            entries.append(pipeline.gen_entry(g, gid='%s@ctx%d' % (n, vi), ctx=sorted(cs), postprec=pp, noval=nv, ctxref=vi in (0, 1), reattach=vi in (1, 3)))
     L = 4 if tier == 'quick' else 5
     for e in entries:
         ins = all_inputs(e.g, L if len(e.g.ts) <= 3 else L - 1, 300 if tier == 'quick' else 2000)
